@@ -3,12 +3,13 @@ CONSTANTS
   Stacks <- StacksTimes
   Outcomes <- Out2
   TagOps <- TagOps2
-  Times = {"1", "2"}
+  Times = {"1", "none"}
   MaxCalls = 10
   MaxTests = 2
   MaxRuns = 1
   MaxTagOps = 0
   MaxTimes = 2
+  MaxIds = 9
   AllowStop = FALSE
   AllowSetFF = FALSE
   AllowSkipNoStart = FALSE
